@@ -218,7 +218,7 @@ fn shapes(ctx: &Ctx) -> Vec<Shape> {
 
 fn main() {
     let ctx = Ctx::from_env("C13");
-    ctx.rule("case = (attribute shape with <= 5 (quick) / 8 (thorough) objects, miss count incl. unset and beyond the object count, origin lazer/stable/classic where the mode distinguishes them, priority); per case the targets are a 0.5% grid united with every achievable accuracy and every midpoint between neighbouring achievable accuracies +-1e-9; oracle = misses as given (clamped to the objects) and |target - accuracy(generated)| <= min over all distributions with the same misses + 1e-12; non-trivial = more than one achievable accuracy");
+    ctx.rule("case = (attribute shape with <= 5 (quick) / 8 (thorough) objects, miss count incl. unset and beyond the object count, origin lazer/stable/classic where the mode distinguishes them, priority; for taiko also whole-map attributes of 2/3/5/8/12 hits used with passed_objects(k), k in {0,1,n/2,n-1}, the distributions then ranging over k hits); per case the targets are a 0.5% grid united with every achievable accuracy and every midpoint between neighbouring achievable accuracies +-1e-9; oracle = misses as given (clamped to the objects) and |target - accuracy(generated)| <= min over all distributions with the same misses + 1e-12; non-trivial = more than one achievable accuracy");
     ctx.assume("accuracy is the documented formula per mode (osu! slider parts at their maximum because they are not specified); ties are not violations");
 
     // (attribute shape, passed_objects): for taiko — where the judgements of a partial play are simply the first k hits — the
